@@ -277,6 +277,12 @@ def run_property(pid, tier, seed):
         if ex and pr["spec"].get("fuzz"):
             fuzz_execs += int(ex[-1])
         files = sorted(glob.glob(os.path.join(pr["rdir"], "*.json")))
+        if not files and pr["rc"] != 0:
+            # the process died (fatal error / OOM kill) while working on a case it had written out
+            for inf in sorted(glob.glob(os.path.join(pr["rdir"], "*.inflight"))):
+                dst = inf[:-len(".inflight")] + "-died.json"
+                shutil.copyfile(inf, dst)
+                files.append(dst)
         if pr["spec"].get("fuzz"):
             # native fuzz crashers without a Case file
             for cr in glob.glob(os.path.join(rundir, "testdata", "fuzz", "*", "*")):
